@@ -252,10 +252,21 @@ def oracle_refine(case) -> Result:
         set_counts(mps, case['cuts'], case['aseed'])
     mps.eval()
     mps.update_softmax_options(hard=True)
-    with torch.no_grad():
-        mps(x0)
+    if (case['aseed'] // 3) % 2:
+        # the refinement is called straight after the coefficients were written, without a
+        # forward pass of ours in between (the sampled coefficients of the model are stale: the
+        # function has to bring them up to date itself); the cost before is measured on a copy
+        from ..core import safe_deepcopy
+        twin = safe_deepcopy(mps)
+        with torch.no_grad():
+            twin(x0)
+        cost_before = float(twin.get_cost('ne16'))
+        res.ev('refinement-called-without-a-forward-pass-first')
+    else:
+        with torch.no_grad():
+            mps(x0)
+        cost_before = float(mps.get_cost('ne16'))
     before = {k: v for k, v in mps.summary().items() if 'w_precision' in v}
-    cost_before = float(mps.get_cost('ne16'))
     calls = []
     orig = U._reassign_precisions
     orig_counts = {}
